@@ -51,8 +51,8 @@ _OPTIONS = _ThreadOptions()
 
 _SENTINEL = object()
 
-_re_trivia_leading  = re.compile(r'(?:all|block|none|)      (?:[+-] (?:\d+)? )? $', re.VERBOSE)
-_re_trivia_trailing = re.compile(r'(?:all|block|none|line|) (?:[+-] (?:\d+)? )? $', re.VERBOSE)
+_re_trivia_leading  = re.compile(r'(?:all|block|none|)      (?:[+-] (?:\d+)? )? \Z', re.VERBOSE)
+_re_trivia_trailing = re.compile(r'(?:all|block|none|line|) (?:[+-] (?:\d+)? )? \Z', re.VERBOSE)
 
 
 # ......................................................................................................................
